@@ -328,6 +328,11 @@ Definition cstep (w : world) (c : cop) : world * cout :=
   | Prim o => let '(w', r) := step w o in (w', CPrim r)
   | Lookup k cur fresh => let '(w', (h, v)) := lookup w k cur fresh in (w', CLookup h v)
   end.
+Definition cop_wf (c : cop) : Prop :=
+  match c with
+  | Prim o => op_wf o
+  | Lookup k _ fresh => 0 <= k_size k /\ 0 <= v_size fresh
+  end.
 Definition crun (w : world) (cs : list cop) : world := fold_left (fun w c => fst (cstep w c)) cs w.
 
 (* the primitive operations a client history performs (Lookup resolved by what the cache answered) *)
